@@ -638,7 +638,7 @@ func Run(cfg Config) *hx.Result {
 	}
 	perMethod := 6
 	if cfg.Tier == "thorough" {
-		perMethod = 60
+		perMethod = 150
 	}
 	rs := codec.C02Resources()
 	x.fixedCorpus(rs)
